@@ -2,6 +2,8 @@
 
 package datafile
 
+import "github.com/valyala/bytebufferpool"
+
 // Accessors for the verification harness (build tag verif only).
 
 const (
@@ -16,3 +18,18 @@ func (df *DataFile) VerifLast() (uint32, uint32) {
 
 // VerifClosed reports the closed flag.
 func (df *DataFile) VerifClosed() bool { return df.closed }
+
+var verifZeros []byte
+
+// VerifGeom runs writeToBuf for a payload of n bytes on a file whose writer state is
+// (blockID, blockLen) and returns the reported position and the next writer state.
+// The bytes produced are discarded.
+func (df *DataFile) VerifGeom(blockID, blockLen uint32, n int) (DataPos, uint32, uint32) {
+	if len(verifZeros) < n {
+		verifZeros = make([]byte, n*2+1024)
+	}
+	buf := bytebufferpool.Get()
+	defer bytebufferpool.Put(buf)
+	pos, id, size := df.writeToBuf(verifZeros[:n], blockID, blockLen, buf)
+	return *pos, id, size
+}
